@@ -9,6 +9,7 @@ TRACE = {
  "C02": "every scheduler decision is validated against QueueFit on the leaf and all ancestors (FitInMaxUndef, root FitIn) on the logged pre-state; head-room chain, root max = sum of node capacities and usage<=max (unless forced from outside) are state invariants",
  "C03": "the conservation invariants (application, queue tree, root vs nodes incl. cross-node swap halves, no orphans, preempting ledger, counters) are evaluated on every logged state; every trace ends with a release-everything epilogue on which all books must be exactly empty",
  "C04": "the shim's view (Protocol section of YKTrace.tla) is folded over the SI messages only; every announcement must be legal in that view",
+ "C05": "(a) every scheduler decision of seeded histories (limit layouts with named and wildcard user/group limits, reloads) is validated against the limits the trackers carry (maximum resources on every queue of the path for the user and the resolved group; maximum applications at admission) and tracked usage / running-application lists are checked against the live allocations on every state; (b) spec/UGM.tla specifies the user/group manager as a deterministic state machine (UpdateConfig with the INTENDED meaning: the limits in force are those of the latest configuration; Increase/Decrease; Headroom/CanRunApp with named-else-wildcard lookup and group resolution); TLC generates behaviours (all ordered pairs of configurations from four families x a usage script, plus seeded simulations of up to 3 configurations and 14 API calls) with the expected Headroom/CanRunApp for a probe set after every step, replayed lock-step on the real manager",
  "C06": "replacement decision, confirmation and placeholder-timeout steps are validated against the gang rules; per task group replaced<=count is a state invariant",
  "C07": "every PREEMPTED_BY_SCHEDULER victim set is validated on the logged pre-state against the eligibility rules (bound, not released/preempted, no required node, fence root, policy, shared type, relative priority with offsets and fences; required-node variant)",
  "C08": "every queue-preemption step is validated: asker under a guarantee on its path, victims only from over-guarantee (hierarchical) queues evaluated sequentially, victims + free space of the reserved node cover the ask, nothing marked without victims; preempting ledger",
@@ -20,6 +21,7 @@ TRACE = {
  "C16": "every reload step: rejected => nothing observable changes; accepted => nodes/applications/queue totals preserved, new limits/properties applied as the abstract configuration says, missing managed queues Draining, draining leaf rejects new applications, queues removed only when empty",
 }
 MODEL = {"C01", "C02", "C03", "C04", "C06", "C09", "C10"}
+MODEL_CAT = MODEL | {"C05"}
 MODEL_TXT = ". Design level: the generative specification spec/YuniKorn.tla (explicit node and queue ledgers, reservations, the placeholder swap pipeline, the shim's protocol view, confirmations in any order) is model-checked exhaustively by TLC within the bounds of spec/MC_YK_intended*.cfg against the invariants C01_*..C10_*; TLC-generated environment histories (all bounded behaviours + sampled long ones) are replayed on the real core"
 checks = []
 for p, txt in TRACE.items():
@@ -31,7 +33,7 @@ for p, txt in TRACE.items():
         "replay_cmd_template": "bin/check %s --replay {path}" % p,
         "engine": "model+trace-validation" if p in MODEL else "trace-validation",
         "technique": "TLA+ trace validation with TLC (spec/YKTrace.tla over spec/YKState.tla) of step-by-step executions of the real core",
-        "level_claimed": {"category": "model_checking" if p in MODEL else "exploration", "text": txt + (MODEL_TXT if p in MODEL else "") + ". Conformance: histories are seeded samples (quick ~15k, thorough ~500k validated steps), every step of every history is judged by the specification.", "design_ref": "DESIGN.md section 6 (" + p + ")"},
+        "level_claimed": {"category": "model_checking" if p in MODEL_CAT else "exploration", "text": txt + (MODEL_TXT if p in MODEL else "") + ". Conformance: histories are seeded samples (quick ~15k, thorough ~500k validated steps), every step of every history is judged by the specification.", "design_ref": "DESIGN.md section 6 (" + p + ")"},
         "level_note": "trusted: the projection harness/drive/project.go (exported getters, REST DAOs, build-tagged export shims), TLC's evaluation of YKTrace.tla, the sequential driver (one SI request or one scheduling cycle per step, quiescent after each step). Known findings are exempted only by the narrow shape predicates listed in KNOWN_FINDINGS.json.",
     })
 OTHER = {
@@ -55,7 +57,6 @@ OTHER["C14"] = dict(engine="concurrency", cat="model_checking", tech="TLA+ refin
    text="(1) spec/YKConc.tla: scheduling cycle (Select / Commit1 / Commit2) against node removal (two steps), conservation at quiescence model-checked exhaustively; the interleaving classes (an RM event - node removal, re-registration, drain, application removal, release - running entirely inside one of the cycle's gaps, or the cycle inside the node removal) are replayed deterministically on the real core through the gates tryNode.beforeNodeAdd, partition.allocate.entry and removeNode.afterList, every line validated by YKTrace.tla; (2) seeded concurrent sessions (scheduling loop, 4 request streams, node churn, reloads, quota-preemption ticks, timers, late/duplicate confirmations, DAO and health-check readers) built with -race: every data race report, panic, goroutine left blocked in core code is a violation unless it matches a known finding by frame signature; quiescent final state validated (C02_Headroom/RootMax, C09_*, C10_Transitions as verdicts; the ledger invariants are observations there, see level_note); (3) spec/LockOrder.tla: the recorded lock acquisition edges (instance and class level) must be acyclic",
    note="Schedules are SAMPLED by the Go scheduler: absence of a race report is not a proof. The ledger invariants (C01/C03/C05) of a sampled session's final state are counted but not judged because the known defect family KF-C14-REMOVAL-DURING-CYCLE corrupts exactly those books and cannot be recognised from a final state; that family is decided by the deterministic gate scenarios. Sampled sessions do not remove nodes or applications for the same reason.")
 NA = {
- "C05": "check under construction in this revision (usage invariants exist in YKTrace.tla; the limit-enforcement step check and the UpdateConfig lock-step replay are not registered yet)",
 
 
 }
